@@ -46,7 +46,7 @@ func (s *SelectSeriesPlanner) Process(ctx *shared.PlannerContext) (sql.ISelect, 
 			}
 			return fmt.Sprintf(
 				"sum(toFloat64(arrayFirst(x -> %s, p.values_agg).2)) / "+
-					"sum(toFloat64(arrayFirst(x -> x.1 == %s).3))",
+					"sum(toFloat64(arrayFirst(x -> %s, p.values_agg).3))",
 				strSampleTypeUnit, strSampleTypeUnit), nil
 		}), "value")
 	}
